@@ -196,6 +196,8 @@ def _install_lapack_wrappers():
     scipy.linalg.rq = mk(scipy.linalg.rq, 'rq')
 
 
+import scipy.linalg._basic as _sp_basic      # noqa: E402
+_ORIG_LSTSQ = _sp_basic.lstsq                # the function object whose attribute `default_lapack_driver` scipy reads
 _install_lapack_wrappers()
 
 
@@ -608,6 +610,10 @@ def execute(sc):
         CLOCK.reset()
         if sc['world_seed'] % 5 == 0:
             stats['fault.numpy_printoptions_changed'] = 1           # set by every client thread for itself, see client_main
+        if sc['world_seed'] % 7 == 0:
+            # scipy's documented process-global default of the least-squares driver (the library names its driver in every call)
+            _ORIG_LSTSQ.default_lapack_driver = ['gelss', 'gelsy'][sc['world_seed'] % 2]
+            stats['fault.scipy_default_lstsq_driver_changed'] = 1
         if sc.get('poison'):
             POISON[0] = 0xA5
             stats['fault.uninitialised_memory_poisoned'] = 1
@@ -663,6 +669,7 @@ def execute(sc):
         SCHED[0] = None
         POISON[0] = None
         np.set_printoptions(threshold=1000, edgeitems=3, precision=8, linewidth=75)
+        _ORIG_LSTSQ.default_lapack_driver = 'gelsd'
     sample = {'n': sc['n'], 'clients': [[(x['entry'], x['seed_mode']) for x in scr] for scr in sc['clients']],
               'yield_points': s.steps, 'switches_inside_calls': s.switch_inside, 'perturbations': s.perturbed}
     h = [[r for r in c.results] + sorted(c.results2.items()) + sorted(c.results_rep.items()) for c in s.clients]
